@@ -55,7 +55,7 @@ macro_rules! seq_mask {
 
 harnesses! {
     // ---- symbols: all 32 / 16 patterns decided by the solver
-    fn c20_q_miupac_symbols [2] {
+    fn c20_q_miupac_symbols [10] {
         let b = any_u8();
         assume(b < 32);
         let x = masked::Iupac::try_from_bits(b).unwrap();
@@ -89,7 +89,7 @@ harnesses! {
         reach!(b & 4 != 0, "masked input");
         reach!(b & 4 == 0, "unmasked input");
     }
-    fn c20_q_mdna_symbols [2] {
+    fn c20_q_mdna_symbols [10] {
         let b = any_u8();
         let x = masked::Dna::try_from_bits(b);
         assume(x.is_some());
@@ -124,17 +124,17 @@ harnesses! {
         reach!(ch == 'a', "masked a");
     }
     // ---- sequences
-    fn c20_q_seq_mask_l3 [5] { seq_mask!(3, 0) }
-    fn c20_q_seq_unmask_l3 [5] { seq_mask!(3, 1) }
-    fn c20_q_seq_mask_rev_l3 [9] { seq_mask!(3, 2) }
-    fn c20_q_seq_rev_mask_l3 [9] { seq_mask!(3, 3) }
-    fn c20_q_seq_mask_comp_l2 [4] { seq_mask!(2, 4) }
-    fn c20_q_seq_comp_mask_l2 [4] { seq_mask!(2, 5) }
+    fn c20_q_seq_mask_l3 [10] { seq_mask!(3, 0) }
+    fn c20_q_seq_unmask_l3 [10] { seq_mask!(3, 1) }
+    fn c20_q_seq_mask_rev_l3 [10] { seq_mask!(3, 2) }
+    fn c20_q_seq_rev_mask_l3 [10] { seq_mask!(3, 3) }
+    fn c20_q_seq_mask_comp_l2 [10] { seq_mask!(2, 4) }
+    fn c20_q_seq_comp_mask_l2 [10] { seq_mask!(2, 5) }
     fn c20_q_seq_mask_l13 [15] { seq_mask!(13, 0) }
     fn c20_t_seq_unmask_l13 [15] { seq_mask!(13, 1) }
     fn c20_t_seq_mask_rev_l13 [34] { seq_mask!(13, 2) }
     fn c20_t_seq_mask_comp_l13 [15] { seq_mask!(13, 4) }
-    fn c20_q_seq_to_mask_o12_n1 [4] {
+    fn c20_q_seq_to_mask_o12_n1 [10] {
         // copying form on a window whose only symbol straddles the word boundary
         let w = any_words::<2>();
         let src = arr::<masked::Iupac, 25, 2>(w);
@@ -146,7 +146,7 @@ harnesses! {
         reach!("end");
         core::mem::forget(r);
     }
-    fn c20_q_seq_mdna_mask_l2 [4] {
+    fn c20_q_seq_mdna_mask_l2 [10] {
         let w = any_words::<2>();
         let src = arr::<masked::Dna, 32, 2>(w);
         let mut s = owned_cap(&src, 0, 2, 2);
